@@ -46,6 +46,9 @@ class Ctx:
         self.solver = z3.Solver()
         self.solver.set("timeout", timeout_ms)
         self.nfresh = 0
+        self.nfailed_checks = 0
+        self.slow_checks_s = 0.0
+        self.timeout_ms = timeout_ms
         self.obligations = []    # (name, verdict, model|None, secs, info)
         self.assumptions = set()
         self.ghost = {}
@@ -169,6 +172,32 @@ class Ctx:
         self.assume_z3(x.z == chosen)
         return chosen
 
+    def summarize(self, fn):
+        """Explores every local path of the Boolean-valued fn() under the current path condition *without* forking the
+        enclosing path, and returns the merged result (disjunction of local-path-condition AND result)."""
+        saved = (self.prefix, self.pos, self.decisions, self.alts)
+        work = [[]]
+        parts = []
+        try:
+            while work:
+                pre = work.pop()
+                self.prefix, self.pos, self.decisions, self.alts = pre, 0, [], []
+                mark = len(self.pc)
+                self.solver.push()
+                try:
+                    r = fn()
+                    local = self.pc[mark:]
+                    parts.append(z3.And(*(local + [tobool(r)])) if local else tobool(r))
+                except PathAbort:
+                    pass
+                finally:
+                    work.extend(self.alts)
+                    del self.pc[mark:]
+                    self.solver.pop()
+        finally:
+            self.prefix, self.pos, self.decisions, self.alts = saved
+        return SymBool(z3.Or(*parts)) if parts else SymBool(z3.BoolVal(False))
+
     # ---- obligations ---------------------------------------------------------------------------
     def prove(self, name, cond, info=None, assume=True):
         """Proof obligation: under the current path condition `cond` holds.  Recorded, then (by default) assumed."""
@@ -211,8 +240,23 @@ class Ctx:
             m = _quick_refute(c)
             if m is not None:
                 self.obligations.append((name, 'failed', m, 0.0, info))
+                self.nfailed_checks += 1
                 return
-        self.prove(name, c, info, assume=False)
+        if self.nfailed_checks >= 12 and self.slow_checks_s > 30.0:
+            # this case already has refuted obligations and the solver has been slow: the verdict of the case cannot
+            # become "proved" any more, so remaining solver calls are skipped (recorded as skipped, never as proved)
+            self.obligations.append((name, 'unknown', 'skipped: case already refuted and solver budget used', 0.0, info))
+            return
+        t0 = time.time()
+        n0 = len(self.obligations)
+        self.solver.set("timeout", 10000)
+        try:
+            self.prove(name, c, info, assume=False)
+        finally:
+            self.solver.set("timeout", self.timeout_ms)
+        if self.obligations[-1][1] != 'proved':
+            self.nfailed_checks += 1
+            self.slow_checks_s += time.time() - t0
 
     def fail(self, name, info=None):
         """An obligation that fails by reaching this point on a feasible path."""
